@@ -13,7 +13,7 @@ CHECKS.update({
             "Bounded small-scope claim; deviation bound 4 on the largest race program in the quick tier.", ENGINE_TECH),
     "C11": ("6/C11", "At every quiescent point of every schedule of the engine catalog (incl. resumed runs, runs continued from the context of a run that ended with work left over, and a run one of whose worker tasks ends with CancelledError) the live runner state is compared with rebuild_state_from_ticks(init_state, recorded ticks) and with ctx.to_dict()/running_steps.",
             "Timestamps masked, as the property allows.", ENGINE_TECH),
-    "C35": ("6/C35", "All schedules of the engine catalog; per processed tick PREPARING publications are compared with the queue growth, open RUNNING slots are compared with the runner's in-progress set in every quiescent live state, per-slot (RUNNING NOT_RUNNING)* language, InputRequiredEvent published once.",
+    "C35": ("6/C35", "All schedules of the engine catalog plus a request event that is also the input of a retried step; per processed tick PREPARING publications are compared with the queue growth, open RUNNING slots are compared with the runner's in-progress set in every quiescent live state, per-slot (RUNNING NOT_RUNNING)* language, InputRequiredEvent published once.",
             "Telemetry is tied to the runner's queue / in_progress sets (the anchors named by the property).", ENGINE_TECH),
 })
 
@@ -21,7 +21,7 @@ GRID_TECH = "exhaustive enumeration of a finite configuration grid, each case ex
 CHECKS.update({
     "C05": ("6/C05", "Complete grid of retry policies (attempt/delay budgets as numbers or timedeltas - sub-second and longer than a day -, flat and nested |,& compositions - thorough: all pairs of 12 atoms -, retryable vs not, legacy constructors, seedless custom policy) x step durations x delays x clock configurations (wall/monotonic bases differ/equal, wall-clock adapter) x failure-event kind; executions, retry_info and failure-event fields are compared with a reference computed from really elapsed virtual time.",
             "wait_fixed delays only (delay indexing is C06). The clock defect found by this check was repaired (fix: c88b71f).", GRID_TECH),
-    "C06": ("6/C06", "Every listed wait-strategy instance (incl. timedelta-configured ones and exponential bases that overflow a double) x 1..4(6) retries; the gap between the k-th failure and the k-th retry of a real failing step on the virtual clock is compared with the tenacity-documented delay.",
+    "C06": ("6/C06", "Every listed wait-strategy instance (incl. timedelta-configured ones, exponential bases that overflow a double, and a floor configured above the cap) x 1..4(6) retries; the gap between the k-th failure and the k-th retry of a real failing step on the virtual clock is compared with the tenacity-documented delay.",
             "One genuine defect (1-based count into 0-based strategies) recorded as known findings per strategy shape; other shapes/clauses still alarm.", GRID_TECH),
 })
 
@@ -48,11 +48,11 @@ CHECKS.update({
 })
 
 CHECKS.update({
-    "C22": ("6/C22", "Dependency graphs over <=3 resources (sync/async factories with an inner suspension point, cached/non-cached, shared sub-dependency, 1-,2-,3-cycles) injected into two overlapping steps, two invocations of a num_workers=2 step, staggered second users, non-LIFO completion of two factories, and resolutions after one that raised (transient factory fault) x all interleavings; factory call counts, identities and cycle errors vs the documented rules.",
+    "C22": ("6/C22", "Dependency graphs over <=3 resources (sync/async factories with an inner suspension point, cached/non-cached, shared sub-dependency, 1-,2-,3-cycles) injected into two overlapping steps, two invocations of a num_workers=2 step, staggered second users, non-LIFO completion of two factories, one factory declared both cached and non-cached, and resolutions after one that raised (transient factory fault) x all interleavings; factory call counts, identities and cycle errors vs the documented rules.",
             "One genuine defect (per-manager resolution bookkeeping: false cycle error under concurrency) recorded; caching clauses are exercised on the staggered schedules where resolutions do not overlap.", ENGINE_TECH),
-    "C30": ("6/C30", "2-4 runs of one instance with num_concurrent_runs 1..3 / unlimited, started together or staggered, a second instance, hard cancel of a queued run, a successor instance created after instances with another limit were garbage-collected x all start/finish interleavings; runs executing steps counted in every quiescent state.",
+    "C30": ("6/C30", "2-4 runs of one instance with num_concurrent_runs 1..3 / unlimited, started together or staggered, a second instance, hard cancel of a queued run, a successor instance created after instances with another limit were garbage-collected, one more run started from the serialized context of an executing run x all start/finish interleavings; runs executing steps counted in every quiescent state.",
             "Bounded small-scope claim.", ENGINE_TECH),
-    "C31": ("6/C31", "Timeout (also simultaneous with a step completion) or cancel_run arriving at every quiescent point of chain, fan-out, delayed-retry and wait+retry workflows x all completion orders, one or two cancel/resume cycles; terminal events, active_steps, no step after cancel, serializable context and completing resumed run.",
+    "C31": ("6/C31", "Timeout (also simultaneous with a step completion) or cancel_run arriving at every quiescent point of chain, fan-out, delayed-retry and wait+retry workflows x all completion orders, one or two cancel/resume cycles, and *_hang programs in which the running steps block for good from an explorer-chosen point on (a fresh or a cancelled-and-resumed run with a timeout must then time out); terminal events, active_steps, no step after cancel, serializable context and completing resumed run.",
             "One genuine finding (cancel during a retry delay loses the retry) recorded.", ENGINE_TECH),
 })
 
@@ -60,7 +60,7 @@ SCHED_TECH = "stateless exhaustive interleaving exploration of the real async co
 CHECKS.update({
     "C25": ("6/C25", "2-4 tasks on overlapping keys (single, back-to-back and nested sections) started at explorer-chosen points, up to 2 cancellations at any quiescent point (also in the same loop iteration as a release, both orders) x all interleavings of the real KeyedLock; occupancy per key, no waiting without a holder, every non-cancelled task enters, no lock state left.",
             "asyncio delivers cancellation only at suspension points; uncontended Lock.acquire does not suspend.", SCHED_TECH),
-    "C29": ("6/C29", "merge_generators over 1-3 sources (<=3 items, optional failing source) x all release orders, simultaneous completions and all iteration orders of the done set; debounced_sorted_prefix over 2-5 items released at explorer-chosen points relative to the debounce / max-window timers incl. the same loop iteration as the window closing.",
+    "C29": ("6/C29", "merge_generators over 1-3 sources (<=3 items, optional failing source) x all release orders, simultaneous completions and all iteration orders of the done set; debounced_sorted_prefix over 2-5 items released at explorer-chosen points relative to the debounce / max-window timers incl. the same loop iteration as the window closing, and two or three streams in one process (one after the other / overlapping); the burst is judged against a window computed from the virtual clock, not from the implementation's own bookkeeping.",
             "Fix 28a93c4 repaired the late-item-overtakes-burst defect this check found.", SCHED_TECH),
 })
 
@@ -68,7 +68,7 @@ NOT_APPLICABLE = {}
 
 ENUM_TECH = "exhaustive enumeration of a bounded input / operation-sequence space, every case executed on the real implementation and compared with an independent reference model"
 CHECKS.update({
-    "C07": ("6/C07", "Every retry-condition term of depth <=2 over 15 atoms (|, &, retry_any/retry_all with 0-3 arguments, plain callables on either side) on 8 exceptions with chained causes; every stop-condition term on a 7x9x4 (attempts, elapsed, upcoming_sleep) grid; every built-in wait strategy on parameter grids x 13 attempt counts (up to 10^5, past double overflow) x 5 seeds incl. None; compared with truth tables, sums of parts and the documented bounds; seeded calls repeated with a perturbed global RNG and on a fresh instance.",
+    "C07": ("6/C07", "Every retry-condition term of depth <=2 over 15 atoms (|, &, retry_any/retry_all with 0-3 arguments, plain callables on either side) on 8 exceptions with chained causes; every stop-condition term on a 7x9x4 (attempts, elapsed, upcoming_sleep) grid; every built-in wait strategy on parameter grids (incl. min above max) x 13 attempt counts (up to 10^5, past double overflow) x 5 seeds incl. None; compared with truth tables, sums of parts and the documented bounds; seeded calls repeated with a perturbed global RNG and on a fresh instance.",
             "Sane parameters only (min<=max, non-negative). Fix e15796f repaired the OverflowError this check found.", ENUM_TECH),
 })
 
@@ -83,12 +83,12 @@ CHECKS.update({
 })
 
 CHECKS.update({
-    "C20": ("6/C20", "2-4 tasks, one operation each from {set, set_state (whole-state replace), clear, edit_state blocks that read, suspend at 1-2 harness gates and write} on colliding keys (DictState and a typed Child(Base) state with parent-type merges), started at explorer-chosen points, optionally one caller giving up (task.cancel) on a pending operation; every interleaving of starts and gate releases executed on the real InMemoryStateStore and SqliteStateStore (DB file) on the virtual loop; final state must equal some permutation of the operations applied atomically to a plain dict (brute force).",
+    "C20": ("6/C20", "2-4 tasks, one operation each from {set, set_state (whole-state replace), clear, edit_state blocks that read, suspend at 1-2 harness gates and write, a block that starts a helper task which writes later on its own} on colliding keys (DictState and a typed Child(Base) state with parent-type merges), started at explorer-chosen points, optionally one caller giving up (task.cancel) on a pending operation; every interleaving of starts and gate releases executed on the real InMemoryStateStore and SqliteStateStore (DB file) on the virtual loop; final state must equal some permutation of the operations applied atomically to a plain dict (brute force).",
             "All interleavings of each program are explored (no deviation bound). Fix 6ffe178 repaired the unlocked SqliteStateStore.set_state this check found.", SCHED_TECH),
 })
 
 CHECKS.update({
-    "C21": ("6/C21", "Every sequence (length <=2(3) over all 26 operations, one of which ('reopen') ends the process without a shutdown call and reads everything back through a new store on the same file; <=4(5) inside the tick family incl. a paged tick stream left open across appends; <=3(4) over state-store x other-family operations) of handler / event / tick / state-store operations executed on a SqliteWorkflowStore with single_connection=True and on one with per-call connections (two real DB files); results and raised exceptions compared after every step.",
+    "C21": ("6/C21", "Every sequence (length <=2(3) over all 28 operations - two of them state writes that raise (incompatible model, unserializable value) -, one of which ('reopen') ends the process without a shutdown call and reads everything back through a new store on the same file; <=4(5) inside the tick family incl. a paged tick stream left open across appends; <=3(4) over state-store x other-family operations) of handler / event / tick / state-store operations executed on a SqliteWorkflowStore with single_connection=True and on one with per-call connections (two real DB files); results and raised exceptions compared after every step.",
             "Differential oracle: the per-call store is the reference the property names. _TICK_PAGE_SIZE set to 2 by the harness. Fix cbedf65 repaired the closed shared connection this check found.", ENUM_TECH),
 })
 
@@ -109,12 +109,12 @@ CHECKS.update({
 })
 
 CHECKS.update({
-    "C28": ("6/C28", "Every starting schema {fresh; schema_migrations recorded up to k=1..N; legacy PRAGMA user_version=k without the bookkeeping table} x 1..3 consecutive run_migrations() calls x {caller commits / only closes} x {connection reused / new connection per run} on real DB files with the repository's migration files; normalized sqlite_master + table_info, schema_migrations rows and a pre-existing data row, read through a separate connection after every run, compared with a freshly migrated database; plus, for every starting schema, runs in which the f-th schema-changing operation is refused (SQLite authorizer; every f): the abandoned file must sit at a version boundary and the following runs must converge.",
+    "C28": ("6/C28", "Every starting schema {fresh; schema_migrations recorded up to k=1..N; legacy PRAGMA user_version=k without the bookkeeping table} x 1..3 consecutive run_migrations() calls x {caller commits / only closes} x {connection reused / new connection per run} on real DB files with the repository's migration files; normalized sqlite_master + table_info, schema_migrations rows and a pre-existing data row, read through a separate connection after every run, compared with a freshly migrated database; every starting schema also with the two sources [server, dbos] and [dbos, server]; plus, for every starting schema, runs in which the f-th schema-changing operation is refused (SQLite authorizer; every f): the abandoned file must sit at a version boundary and the following runs must converge.",
             "The space is finite and enumerated completely (108 fault-free histories + 189 faulted ones for 4 migrations).", ENUM_TECH),
 })
 
 CHECKS.update({
-    "C34": ("6/C34", "Release triples over the component grid {0,1,2,10} (quick) / {0,1,2,9,10,11,99,100} (thorough) x pre-release {none, a/b/rc x {0,1,10}}: PEP 440 -> semver -> PEP 440 over 3-7 input spellings per version and semver -> PEP 440 -> semver; detect_change_type on ALL ordered pairs of the grid (PEP 440 spelling; on the 4-value grid also semver/semver and both mixed spellings = 1.6M calls quick, 27M thorough) compared with packaging.Version ordering and the first differing release component.",
+    "C34": ("6/C34", "Release triples over the component grid {0,1,2,10} (quick) / {0,1,2,9,10,11,99,100} (thorough) x pre-release {none, a/b/rc x {0,1,10}}: PEP 440 -> semver -> PEP 440 over 3-7 input spellings per version and semver -> PEP 440 -> semver; the PEP 440 round trip also for release tuples of 1, 2, 4 and 5 components; detect_change_type on ALL ordered pairs of the grid (PEP 440 spelling; on the 4-value grid also semver/semver and both mixed spellings = 1.6M calls quick, 27M thorough) compared with packaging.Version ordering and the first differing release component.",
             "Pairs where only the pre-release part grew are evaluated but not judged (the statement defines no answer).", ENUM_TECH),
 })
 
@@ -124,13 +124,13 @@ CHECKS.update({
 })
 
 CHECKS.update({
-    "C23": ("6/C23", "All pairs of step configs (1-2 accepted x 0-2 returned types) over an 8-class (quick) / 10-class (thorough) event alphabet; every pair with sound connectivity re-validated under all 8 workflow-level skip sets x 4x4 step-level skip lists; all triples over a 5-class alphabet (thorough); 1-2 @catch_error handlers over 10 for_steps layouts x 8 budgets x both discovery orders and positions; all pairs over the 5-class alphabet also through generated Workflow classes and the public Workflow.validate(); accept/reject and the HITL flag compared with an independent restatement of the stated rules (2.8M graphs quick).",
+    "C23": ("6/C23", "All pairs of step configs (1-2 accepted x 0-2 returned types) over an 8-class (quick) / 10-class (thorough) event alphabet; every pair with sound connectivity re-validated under all 8 workflow-level skip sets x 4x4 step-level skip lists; all triples over a 5-class alphabet (thorough); all pairs that use StepFailedEvent as an ordinary returned / accepted type under all 8 workflow-level skip sets; 1-2 @catch_error handlers over 10 for_steps layouts x 8 budgets x both discovery orders and positions; all pairs over the 5-class alphabet also through generated Workflow classes and the public Workflow.validate(); accept/reject and the HITL flag compared with an independent restatement of the stated rules (2.8M graphs quick).",
             "Step configs are built as StepConfig objects and fed to _validate_workflow (the function Workflow.validate calls); the 5-class subset binds that to the public API. Fix recorded for the exact-class HITL flag this check found.", ENUM_TECH),
 })
 
 BFS_TECH = "explicit-state breadth-first search: every transition calls the real implementation with one operation, states are deduplicated on a canonical form of the durable state plus the monitor's ghost state, and the invariant is evaluated in every reachable state"
 CHECKS.update({
-    "C37": ("6/C37", "Breadth-first search over sequences (depth <=5 quick / <=6 thorough) of 19 llamactl configuration operations {add / switch / delete environment x 3 URLs incl. the built-in default; create profile from token (unnamed / keyed) and from OIDC login - the same names recur in every environment; select by name; select-any; update; delete profile} executed through EnvService / AuthService on a real ConfigManager SQLite file; states deduplicated on all table contents + the ghost set of profiles picked since the current environment became current; the invariant is evaluated in every reachable state (~10^4 states quick).",
+    "C37": ("6/C37", "Breadth-first search over sequences (depth <=5 quick / <=6 thorough) of 20 llamactl configuration operations {a read-only 'show active profile'; add / switch / delete environment x 3 URLs incl. the built-in default; create profile from token (unnamed / keyed) and from OIDC login - the same names recur in every environment; select by name; select-any; update; delete profile} executed through EnvService / AuthService on a real ConfigManager SQLite file; states deduplicated on all table contents + whatever the long-lived service object keeps in memory + the ghost set of profiles picked since the current environment became current; the invariant is evaluated in every reachable state (~10^4 states quick).",
             "Network clients (jwt / cryptography / truststore absent) are inert stand-ins; they are not reached. Fix recorded for the stale profile pointer after deleting the current environment.", BFS_TECH),
 })
 
@@ -141,7 +141,7 @@ CHECKS.update({
 
 CRASH_TECH = "exhaustive crash-point enumeration on the real implementation: for every explored schedule the process is stopped after every persisted tick (no further callback runs), a fresh runtime stack is started on the surviving store, and the recovered run is compared with the uninterrupted reference"
 CHECKS.update({
-    "C13": ("6/C13", "8 deterministic workflows (3-step chain, fan-out/fan-in with collect_events, zero-delay retries, catch_error recovery, waiter + external response without / with requirements, a step failure that ends the run, a run the client cancels at any point) on the real server stack (ServerRuntimeDecorator(IdleReleaseDecorator(PersistenceDecorator(BasicRuntime))) + _WorkflowService) over MemoryWorkflowStore (instance survives) and SqliteWorkflowStore (file survives); the process is stopped right after the k-th persisted tick for every k up to the length of the log, a fresh stack resumes through PersistenceDecorator.launch(), and all schedules of both phases within the deviation bound are explored; the resumed handler must end completed with the uninterrupted result and a log that already contains the terminal tick must be finalized without running a step. A further program answers a waiting, busy run only after the restart, on a store whose reads suspend (network-backed store model), so the answer can arrive at any point of the start-up resume.",
+    "C13": ("6/C13", "8 deterministic workflows (3-step chain, fan-out/fan-in with collect_events, zero-delay retries, catch_error recovery, waiter + external response without / with requirements, a step failure that ends the run, a run the client cancels at any point) on the real server stack (ServerRuntimeDecorator(IdleReleaseDecorator(PersistenceDecorator(BasicRuntime))) + _WorkflowService) over MemoryWorkflowStore (instance survives) and SqliteWorkflowStore (file survives); the process is stopped right after the k-th persisted tick for every k up to the length of the log, a fresh stack resumes through PersistenceDecorator.launch(), and all schedules of both phases within the deviation bound are explored; the resumed handler must end completed with the uninterrupted result and a log that already contains the terminal tick must be finalized without running a step. Further programs stop the restarted process again (after the j-th tick it persisted itself), let the waiting run be released for idleness and reloaded by the answer before the stop, and answer a waiting, busy run only after the restart, on a store whose reads suspend (network-backed store model), so the answer can arrive at any point of the start-up resume.",
             "Four genuine root causes are recorded as known findings with root-cause witnesses (step output not yet queued, sent event not yet persisted, spuriously idle-flagged handler skipped at startup, non-matching response replayed against a requirement-less waiter); fixes 31a2af2, bcfdba2 and b75be9a repaired three further defects this check found. Any violation outside those contexts alarms.", CRASH_TECH),
 })
 
